@@ -37,7 +37,7 @@ RULE = (
     "returned disposable (also across threads), dispose(), sleep(ms) on the fake clock, await(n) = wait until n actions have "
     "started. Engine DET (vlib/det.py) serialises all "
     "threads with yield points at every source line of reactivex and every primitive operation; time only moves when every "
-    "thread is blocked. enum: 29 hand-picked programs + all shape-(1,1)/(2,1)/(2,)/(3,)/(1,1,1) programs over the alphabet {schedule, "
+    "thread is blocked. enum: 30 hand-picked programs + a 12-program busy-loop family (n immediates and a timed item all pending at one collect) + all shape-(1,1)/(2,1)/(2,)/(3,)/(1,1,1) programs over the alphabet {schedule, "
     "schedule_relative(2ms), cancel(0), dispose}, each with exit_if_empty off and on, under EVERY schedule with <=1 preemption "
     "(quick); thorough adds EVERY schedule with <=2 preemptions for the hand-picked and the shape-(1,)/(1,1)/(2,) programs; gen: drawn programs (<=2 threads x <=4 commands or 3 threads x <=2) with <=3 "
     "drawn preemption points. Oracle over the sequentially consistent event log (call/return of every command, start/end of "
@@ -45,7 +45,9 @@ RULE = (
     "library-started thread, never on a caller, at most once, and without exit_if_empty all on the one loop thread and never "
     "more than one loop thread is created; (immediate order) two immediately-due actions (schedule(), delay <= 0, absolute "
     "time <= now) where A's schedule call returned before B's began start in that order; (timed) an action never starts "
-    "before its due time and two timed actions with due(A) < due(B) start in that order; (cancel) an action whose disposable's "
+    "before its due time and two timed actions with due(A) < due(B) start in that order; (mixed) an immediately-due action "
+    "whose schedule call returned at an instant strictly earlier than the due time of a timed action starts before that timed "
+    "action (due-time order across the two kinds: an immediate action is due no later than its submission instant); (cancel) an action whose disposable's "
     "dispose() returned (with no other dispose() of it still in flight) before the action started never starts; the only "
     "excusal is the item's OWN narrow window: if the loop's final is_cancelled() look at this item (observed through a logging "
     "ScheduledItem subclass) is directly followed by its start, with no other item examined, started or finished in between, "
@@ -67,7 +69,7 @@ ASSUMPTIONS = [
     "bounds: <=3 scheduling threads, <=4 commands each (<=2 with three threads), one level of nested commands, <=1/<=2 preemptions exhaustive, <=3 drawn",
     "actions do not raise (an escaping action exception kills the loop thread; that is outside this property)",
     "'cancelled before it starts': a cancel landing between the item's own final is_cancelled() look and its invoke (nothing else examined/run in between) is excused (unlocked check-then-invoke, documented as best effort); every other cancel that returned before the start must prevent it",
-    "ties (equal due times of timed actions, immediate vs timed at one instant, calls that overlap each other or a dispose) are not ordered by the oracle",
+    "ties (equal due times of timed actions, an immediate action submitted at or after the instant a timed action is due, calls that overlap each other or a dispose) are not ordered by the oracle",
 ]
 
 _SCHED_OPS = ("now", "rel", "abs", "absz")
@@ -305,6 +307,16 @@ def _judge(case, ctx, res):
                 cl.add("timed-pair")
                 if start[a][0] > start[b][0]:
                     return ("due-order", f"{a} due {due_hi[a]}us ran after {b} due {due_lo[b]}us"), True, cl
+    # mixed: an immediately-due action whose schedule call returned at an instant strictly earlier than the due time of a
+    # timed action is earlier in due-time order (its due time is at most its submission instant) and must not be overtaken
+    for a in ran_imm:
+        for b in ran_timed:
+            if ret[a][3] < due_lo[b]:
+                cl.add("mixed-pair")
+                if start[b][2] > due_hi[b] and start[a][2] >= due_lo[b]:
+                    cl.add("mixed-pair-both-pending-at-collect")
+                if start[a][0] > start[b][0]:
+                    return ("due-order", f"immediately-due {a} (submitted by {ret[a][3]}us) ran after timed {b} due {due_lo[b]}us"), True, cl
     for cid, k in cret.items():
         if cid in start:
             if commit[cid] > k:
@@ -406,6 +418,7 @@ _HAND = [
     [[_now(), ["dispose"], ["per", 2]], [["per", 1]]],
     [[["per", 2], _now(0, [["dispose"], ["per", 1]])]],
     [[["absz", 3, -5, 0, []], ["absz", 1, 4, 0, []], _abs(2)], [["sleep", 1], ["absz", 0, -7, 0, []], _now()]],
+    [[_now(5), _rel(3)], [["sleep", 1], _now(), ["sleep", 1], _now()]],  # loop busy: two immediates, then a timed item, all pending at one collect
     [[_now()], [["await", 1], _now()]],
     [[_now(), ["await", 1], _now(), ["await", 2], _rel(1)]],
     [[_now(), _now()], [["await", 2], _now(), ["cancel", 2]]],
@@ -426,15 +439,27 @@ def _programs(alpha, shape):
         yield prog
 
 
+def _busy_family():
+    """The loop is busy for `busy` ms while n immediately-due actions (schedule() / absolute time in the past) are submitted at
+    1 ms steps and a timed action falls due before the loop is free again: all of them are pending at one collect pass."""
+    for busy, due, n, past in ((5, 3, 2, False), (6, 4, 3, False), (5, 3, 2, True), (6, 2, 3, False)):
+        t1 = []
+        for i in range(n):
+            t1 += [["sleep", 1], (_abs(0) if past and i == 1 else _now())]
+        yield [[_now(busy), _rel(due)], t1]
+        yield [[_now(busy)], [_rel(due)] + t1]
+        yield [[_now(busy), _abs(due), _abs(due + 1)], t1]
+
+
 def _enum(tier):
     if tier == "quick":
         K = 1
-        progs = list(_HAND)
+        progs = list(_HAND) + list(_busy_family())
         for shape in ((1, 1), (2,), (3,), (2, 1), (1, 1, 1)):
             progs += list(_programs(_ALPHA, shape))
     else:
         K = 2
-        progs = list(_HAND)
+        progs = list(_HAND) + list(_busy_family())[:3]
         for shape in ((1,), (1, 1), (2,)):
             progs += list(_programs(_ALPHA, shape))
     for prog in progs:
